@@ -493,6 +493,11 @@ theorem I0_addHandler {fn ud ns name type user} (h : I0 c) : I0 (addHandler c fn
   · exact h
   · exact { h with htu := fun x hx => Nat.lt_succ_of_lt (h.htu x hx) }
 
+theorem I0_addIdHandler {fn id user} (h : I0 c) : I0 (addIdHandler c fn id user) := by
+  unfold addIdHandler; split
+  · exact h
+  · exact { h with htu := fun x hx => Nat.lt_succ_of_lt (h.htu x hx) }
+
 theorem I0_addTimed {fn period user} (h : I0 c) : I0 (addTimed c fn period user) := by
   unfold addTimed; split
   · exact h
@@ -577,8 +582,8 @@ theorem Inv_step (op : Op) (h : Inv c) : Inv (step c op) := by
     · exact .inr ⟨a, J_release h⟩
   | addUserHandlers =>
     rcases h with h | ⟨a, h⟩
-    · exact .inl (I0_addTimed (I0_addHandler h))
-    · exact .inr ⟨a, J_addTimed (J_addHandler h)⟩
+    · exact .inl (I0_addTimed (I0_addIdHandler (I0_addHandler h)))
+    · exact .inr ⟨a, J_addTimed (J_addIdHandler (J_addHandler h))⟩
 
 theorem Inv_fresh (jid pass : Option Bytes) (cert : Bool) (flags : Nat) : Inv (fresh jid pass cert flags) := by
   unfold fresh
